@@ -218,6 +218,20 @@ fn start_watchdog() {
     });
 }
 
+/// Called by checks that perform many independent executions inside one case (fault / shutdown
+/// enumeration): the CPU-time limit then applies to each execution, not to the whole case.
+pub fn heartbeat() {
+    MY_SLOT.with(|s| {
+        if let Some(slot) = s.borrow().as_ref() {
+            let mut g = slot.lock().unwrap();
+            let now = thread_cpu_ns(g.thread).unwrap_or(0);
+            if let Some(r) = g.running.as_mut() {
+                r.3 = now;
+            }
+        }
+    });
+}
+
 struct RunningGuard(Arc<Mutex<Slot>>);
 impl Drop for RunningGuard {
     fn drop(&mut self) {
